@@ -78,6 +78,15 @@ def run(res, prop, tier, seed, work, replay=None):
         "records_by_function_first_2000": dict(per_fn),
         "checker_cmd": st["cmd"], "tlc_record_states": st["tlc_states"], "chunks": st["chunks"],
     }
+    if prop == "C29":
+        # the same statement on a real node: pages 1..N+2 of every kind of GetTransactions query (recorded with the view records)
+        from engines import views
+        sub = vlib.Result("C29", tier, seed, "model_checking")
+        views.run(sub, "C29", tier, seed, os.path.join(work, "views"))
+        for m in sub.mismatches:
+            res.mismatch("C29", m["signature"], m["what"], m["replay"])
+        cov["real_node_pages_checked"] = sub.coverage.get("pages_checked")
+        cov["real_node_view_records"] = sub.coverage.get("view_records")
     if mc:
         cov.update({"states": mc["distinct"], "transitions": mc["generated"],
                     "mc": {"module": "MCPaging", "distinct": mc["distinct"], "generated": mc["generated"], "depth": mc["depth"],
